@@ -18,7 +18,7 @@ def full(E, h):
     """Everything a histogram reports (world-agnostic)."""
     one = h.ndim == 1
     bins = [h.bins.tolist()] if one else [b.tolist() for b in h.bins]
-    d = {"geom": "nd", "edges": [_edges(E, b) for b in h._binnings], "freq": h.frequencies.tolist(), "err2": h.errors2.tolist(), "missed": h._missed.tolist(), "dtype": str(h.dtype), "fdtype": str(h.frequencies.dtype),
+    d = {"geom": "nd", "edges": [_edges(E, b) for b in h._binnings], "freq": h.frequencies.tolist(), "err2": h.errors2.tolist(), "missed": h._missed.tolist(), "dtype": str(h.dtype), "fdtype": str(h.frequencies.dtype), "edtype": str(h.errors2.dtype),
          "bins": bins, "name": h.name, "title": h.title, "axis_names": list(h.axis_names), "meta_keys": sorted(h.meta_data.keys()), "custom": h.meta_data.get("custom"),
          "adaptive": h.is_adaptive(), "cls": type(h).__name__, "shape": [int(s) if isinstance(s, int) else s for s in h.shape],
          "fshape": list(h.frequencies.shape), "eshape": list(h.errors2.shape), "keep_missed": h.keep_missed}
